@@ -1637,14 +1637,28 @@ def check_independent(cls, p, v, how, scenario):
         if not same(canon(y.style.as_dict()), before):
             return "independent/" + scenario, f"{cls}: changing {'.'.join(p)} on one side of a copy changed the other"
     elif scenario == "shared-constructor-dict":
+        # three objects from ONE dict (style= only: the objects keep the caller's dict until first read), read in
+        # turn: each gets the style of an object built from its own copy, the caller's dict stays as it was
         d = nest(p, v)
-        a = make_obj(cls, d)
-        b = make_obj(cls, d)
-        ra = canon(a.style.as_dict())
-        before = canon(b.style.as_dict())
-        a.style.update(label="changed")
-        if not same(canon(b.style.as_dict()), before) or not same(leaf_value(a.style, p), canon(v)):
-            return "independent/shared-constructor-dict", f"{cls}: two objects built from one style dict share state"
+        d["label"] = "shared"
+        d0 = copy.deepcopy(d)
+        want = canon(make_obj(cls, copy.deepcopy(d0)).style.as_dict())
+        objs = [make_obj(cls, d) for _ in range(3)]
+        for i in (1, 0, 2):                       # read the second one first
+            got = canon(objs[i].style.as_dict())
+            if d != d0:
+                return ("independent/shared-constructor-dict:read-changes-callers-dict",
+                        f"{cls}: three objects built with style=d; reading the style of one of them changed the "
+                        f"caller's d from {d0!r} to {d!r}")
+            if not same(got, want):
+                leaf = tree_diff(got, want)[0]
+                return ("independent/shared-constructor-dict",
+                        f"{cls}: three objects built with style=d ({d0!r}), read in turn: object {i} has "
+                        f"{'.'.join(leaf)} = {tget(got, leaf)!r}, expected {tget(want, leaf)!r}")
+        before = canon(objs[1].style.as_dict())
+        objs[0].style.update(label="changed")
+        if not same(canon(objs[1].style.as_dict()), before) or d != d0:
+            return "independent/shared-constructor-dict", f"{cls}: objects built from one style dict share state"
     elif scenario == "constructor-kwarg-next-to-dict":
         # a second object built from the same dict plus a style_ keyword must not change the first
         ref = canon(make_obj(cls, {"label": "mine"}).style.as_dict())
